@@ -132,6 +132,10 @@ def recheck(args):
         if not os.path.exists(mpath):
             continue
         meta = json.load(open(mpath))
+        if os.path.exists(os.path.join(d, 'STALE.md')):
+            # a later fix: commit removed the code this change modified
+            print(sid, 'stale (see STALE.md): not re-run')
+            continue
         base, wt, rc, out = scratch_tree(os.path.join(d, 'patch.diff'))
         try:
             if rc:
@@ -205,6 +209,9 @@ def benign_recheck(args):
         if not os.path.exists(mpath):
             continue
         meta = json.load(open(mpath))
+        if os.path.exists(os.path.join(root, bid, 'STALE.md')):
+            print(bid, 'stale (see STALE.md): not re-run')
+            continue
         base, wt, rc, out = scratch_tree(os.path.join(root, bid, 'patch.diff'))
         try:
             if rc:
